@@ -1,6 +1,9 @@
 package pass1
 
 import (
+	"log"
+	"sort"
+
 	"github.com/HobbyOSs/gosk/internal/ast" // Restored ast import
 	"github.com/HobbyOSs/gosk/internal/client"
 	"github.com/HobbyOSs/gosk/internal/codegen" // Import codegen package
@@ -22,12 +25,22 @@ type Pass1 struct {
 	ExternSymbolList []string
 	Client           client.CodegenClient // 中間言語
 	AsmDB            *asmdb.InstructionDB
+	PendingLabels    map[string]bool // 分岐先として参照されたが、まだ定義されていないラベル
 }
 
 // Eval は AST を走査し、pass1 の処理を実行します。
 // 処理中に CodeGenContext の GlobalSymbolList と ExternSymbolList を更新します。
 func (p *Pass1) Eval(program ast.Prog, ctx *codegen.CodeGenContext) { // Add ctx argument, remove return type
 	TraverseAST(program, p)
+	// 分岐先として使われたのに最後まで定義されなかったラベルは、アドレス 0 のまま機械語になってしまう
+	pending := make([]string, 0, len(p.PendingLabels))
+	for label := range p.PendingLabels {
+		pending = append(pending, label)
+	}
+	sort.Strings(pending)
+	for _, label := range pending {
+		log.Printf("error: label '%s' is used as a branch target but never defined", label)
+	}
 	// Update the context directly instead of returning
 	ctx.GlobalSymbolList = p.GlobalSymbolList
 	ctx.ExternSymbolList = p.ExternSymbolList
